@@ -378,5 +378,7 @@ func TestVerifC19(t *testing.T) {
 		"non-trivial = all deviations took effect at a step with >= 2 enabled goroutines.")
 	r.Assume("pre-emption only at synchronisation operations (delay bound 2); select's random choice is not controlled - failures must reproduce from their schedule")
 	ev.Run(t, r, ev.Spec[c19Scenario]{Name: "scenarios", N: r.N, Gen: c19Gen, Run: c19Explore, Journal: true,
-		Info: func(sc c19Scenario) ev.Info { return ev.Info{Nontrivial: true, Classes: []string{fmt.Sprintf("workers=%d", len(sc.Workers))}} }})
+		Info: func(sc c19Scenario) ev.Info {
+			return ev.Info{Nontrivial: true, Classes: []string{fmt.Sprintf("workers=%d", len(sc.Workers))}}
+		}})
 }
